@@ -39,6 +39,41 @@ def _eq(a, b):
         return False
 
 
+class Snap:
+    """Value of a message frozen at the moment it was received (the consumer may edit the object later)."""
+    __slots__ = ('v', 'r')
+
+    def __init__(self, m):
+        try:
+            self.v = (type(m).__name__, tuple(sorted((k, tuple(x) if isinstance(x, (list, tuple)) else x)
+                                                     for k, x in vars(m).items())))
+        except Exception:
+            self.v = ('?', repr(m))
+        self.r = repr(m)
+
+    def __eq__(self, other):
+        return isinstance(other, Snap) and self.v == other.v
+
+    def __repr__(self):
+        return self.r
+
+
+def consumer_edit(m):
+    try:
+        if m.type in ('note_on', 'note_off'):
+            m.note = (m.note + 12) % 128
+            m.channel = (m.channel + 5) % 16
+        elif m.type == 'control_change':
+            m.value = 127 - m.value
+        elif m.type == 'program_change':
+            m.program = (m.program + 1) % 128
+        elif m.type == 'sysex':
+            m.data = [9, 9]
+        m.time = 555
+    except Exception:
+        pass
+
+
 class NetSim(BaseEngine):
     name = 'netsim'
 
@@ -52,7 +87,8 @@ class NetSim(BaseEngine):
     def gen(self, prop, seed, idx, tier):
         rng = rng_for(prop, seed, idx, 'plan')
         scn = weighted(rng, ((1, 5), (2, 2), (3, 3)))
-        plan = {'prop': prop, 'scn': scn, 'sleep_time': pick(rng, (1e-4, 1e-3, 1e-2, 0.5)),
+        plan = {'prop': prop, 'scn': scn, 'mutate': rng.random() < 0.3,
+                'sleep_time': pick(rng, (1e-4, 1e-3, 1e-2, 0.5)),
                 'start_time': pick(rng, (0.0, 100.0, 1.7e9)),
                 'host': pick(rng, HOSTS), 'port': pick(rng, PORTS + (rng.randint(1, 65535),)),
                 'epipe_after': rng.randrange(2)}
@@ -61,8 +97,10 @@ class NetSim(BaseEngine):
                                model.CHANNEL_TYPES))
             msgs = []
             total = 0
+            repeat = rng.random() < 0.3
             while total < 60 and len(msgs) < rng.randint(1, 8):
-                d = model.gen_msg(rng, types, sysex_max=8)
+                d = dict(pick(rng, msgs)) if (repeat and msgs and rng.random() < 0.6) else \
+                    model.gen_msg(rng, types, sysex_max=8)
                 total += len(model.ref_bytes(d))
                 msgs.append(d)
             rts = []
@@ -105,6 +143,14 @@ class NetSim(BaseEngine):
                     ops.append([k, rng.randint(1, 3)])
                 else:
                     ops.append([k])
+            if idx % 250 == 3:
+                # a burst: many complete messages from several clients between two sweeps of the server
+                for cl in clients:
+                    cl.update({'bulk': rng.randint(400, 1500), 'cut': None, 'segs': [[0.3, 1 << 20]],
+                               'connect_at': 0.0, 'disconnect': False})
+                # all clients are accepted first (one per sweep), then the burst arrives in one piece
+                ops = [['poll'], ['poll'], ['poll'], ['poll'], ['advance', 0.5],
+                       [pick(rng, ('iter_pending', 'poll'))], ['advance', 0.1]]
             plan.update({'clients': clients, 'ops': ops, 'perms': [rng.randrange(3) for _ in range(4)]})
         return plan
 
@@ -222,8 +268,10 @@ class NetSim(BaseEngine):
                 if res is StopIteration:
                     ended = 'stop'
                     break
-                got.append(res)
+                got.append(Snap(res))
                 log.ev(tag, 'iter', repr(res))
+                if plan.get('mutate'):
+                    consumer_edit(res)
                 if len(got) > 500:
                     raise Violation(f'unbounded@{tag}', 'iteration yielded more than 500 messages')
         elif consumer == 'receive':
@@ -236,8 +284,10 @@ class NetSim(BaseEngine):
                 if tagr == 'raised':
                     ended = f'raised:{type(res).__name__}'
                     break
-                got.append(res)
+                got.append(Snap(res))
                 log.ev(tag, 'receive', repr(res))
+                if plan.get('mutate'):
+                    consumer_edit(res)
                 if len(got) > 500:
                     raise Violation(f'unbounded@{tag}', 'receive returned more than 500 messages')
         else:
@@ -267,8 +317,10 @@ class NetSim(BaseEngine):
                     raise Violation(f'nonblocking-waited@{tag}.{consumer}',
                                     f'{consumer} advanced the clock by {clock.now - c0}s')
                 for m in batch:
-                    got.append(m)
+                    got.append(Snap(m))
                     log.ev(tag, consumer, repr(m))
+                    if plan.get('mutate'):
+                        consumer_edit(m)
                 if not batch:
                     if port.closed:
                         ended = 'closed'
@@ -393,7 +445,7 @@ class NetSim(BaseEngine):
             net.at(t, fin)
             stats['fault:fin'] += 1
         clock.last_event = max(clock.last_event, t)
-        expected = [m for end, m in items if end <= c]
+        expected = [Snap(m) for end, m in items if end <= c]
         got, ended = self._consume(port, plan['consumer'], clock, net, plan, log, 'port', allow_oserror=rst)
         log.ev('ended', ended, len(got), bool(port.closed))
         if any(end <= c for end, _ in items) and any(e > c for e, _ in items):
@@ -450,6 +502,8 @@ class NetSim(BaseEngine):
             p._socket.close_latency = plan['latency']
         a2b = [make_msg(s, 0, i, pad) for i, (s, pad) in enumerate(plan['a2b'])]
         b2a = [make_msg(s, 1, i, pad) for i, (s, pad) in enumerate(plan['b2a'])]
+        a2b_snap = [Snap(m) for m in a2b]
+        b2a_snap = [Snap(m) for m in b2a]
         ia = ib = 0
         k = 0
         while ia < len(a2b) or ib < len(b2a):
@@ -464,7 +518,7 @@ class NetSim(BaseEngine):
             if r[0] != 'ok':
                 raise Violation('send-never-returned', 'send() on an open socket port did not return')
         closer, other = (client, sconn) if plan['closer'] == 'client' else (sconn, client)
-        to_other = a2b if closer is client else b2a
+        to_other = a2b_snap if closer is client else b2a_snap
         if plan['reader_before_close'] and plan['consumer'] in ('poll', 'iter_pending'):
             # the other side reads a little before the close happens
             clock.now += plan['latency']
@@ -515,7 +569,11 @@ class NetSim(BaseEngine):
         arrival = {}          # (client, seq) -> time its last byte is delivered
         expected = {}         # client -> list of messages that arrive completely
         for ci, cl in enumerate(plan['clients']):
-            msgs = [make_msg(s, ci, i, pad) for i, (s, pad) in enumerate(cl['msgs'])]
+            if cl.get('bulk'):
+                msgs = [mido.Message('note_on', channel=ci, note=k % 128, velocity=(k // 128) % 128)
+                        for k in range(cl['bulk'])]
+            else:
+                msgs = [make_msg(s, ci, i, pad) for i, (s, pad) in enumerate(cl['msgs'])]
             data = []
             ends = []
             for m in msgs:
@@ -524,7 +582,7 @@ class NetSim(BaseEngine):
             cut = len(data) if cl['cut'] is None else min(cl['cut'], len(data))
             if not cl['disconnect']:
                 cut = len(data)
-            expected[ci] = [m for m, e in zip(msgs, ends) if e <= cut]
+            expected[ci] = [Snap(m) for m, e in zip(msgs, ends) if e <= cut]
             t0 = clock.start + cl['connect_at']
             state = {}
 
@@ -574,7 +632,7 @@ class NetSim(BaseEngine):
             ci = key[0] if key else -1
             exp = expected.get(ci)
             n = len(got[ci])
-            if exp is None or n >= len(exp) or not _eq(exp[n], m):
+            if exp is None or n >= len(exp) or not (exp[n] == Snap(m)):
                 raise Violation(f'server:wrong-message@{where}',
                                 f'{where} returned {m!r}; next expected from client {ci} is '
                                 f'{exp[n] if exp and n < len(exp) else None!r}')
@@ -584,6 +642,8 @@ class NetSim(BaseEngine):
                                                                   f'arrives at {at}')
             got[ci].append(m)
             log.ev(where, repr(m))
+            if plan.get('mutate'):
+                consumer_edit(m)
 
         def pending_arrived():
             """Messages whose last byte has been delivered by now and that were not handed out yet."""
@@ -598,7 +658,8 @@ class NetSim(BaseEngine):
             clock.last_event = max(clock.last_event, nxt if nxt is not None else clock.now)
             clock.arm()
 
-        for op in plan['ops'] + [['advance', 1.0], ['drain'], ['advance', 1.0], ['drain'], ['drain'], ['drain']]:
+        for op in plan['ops'] + [['advance', 1.0], ['drain'], ['advance', 1.0], ['drain'], ['drain'], ['drain']] + \
+                ([['drain']] * 4 if any(cl.get('bulk') for cl in plan['clients']) else []):
             k = op[0]
             stats['steps'] += 1
             if k == 'advance':
@@ -658,8 +719,10 @@ class NetSim(BaseEngine):
         if any(cl['connect_at'] == 0.0 and cl['msgs'] for cl in plan['clients']):
             stats['probe:client_data_before_accept'] += 1
         cov.add(f'scn3|c{len(plan["clients"])}')
-        if any(cl['msgs'] for cl in plan['clients']):
+        if any(cl['msgs'] or cl.get('bulk') for cl in plan['clients']):
             stats['_nontrivial'] += 1
+        if any(cl.get('bulk') for cl in plan['clients']):
+            stats['probe:server_burst_over_1024_messages'] += int(sum(cl.get('bulk', 0) for cl in plan['clients']) > 1024)
         sim = clock.now - clock.start
         clock.horizon = float('inf')
         try:
@@ -699,6 +762,8 @@ class NetSim(BaseEngine):
                 yield from shrink_list_at(plan, ('clients', i, 'msgs'))
                 if c['disconnect']:
                     yield replace_at(plan, ('clients', i, 'disconnect'), False)
+        if plan.get('mutate'):
+            yield replace_at(plan, ('mutate',), False)
         if plan['start_time']:
             yield replace_at(plan, ('start_time',), 0.0)
         if plan['host'] != 'h' or plan['port'] != 8080:
@@ -739,7 +804,7 @@ class NetSim(BaseEngine):
     def probe_names(self, prop):
         return ['cut_inside_message', 'cut_at_boundary', 'cut_at_0', 'cut_at_L', 'eof_seen_while_messages_queued',
                 'client_data_before_accept', 'close_seen_by_peer', 'rst_mid_message',
-                'server_poll_with_two_clients', 'server_blocking_receive']
+                'server_poll_with_two_clients', 'server_blocking_receive', 'server_burst_over_1024_messages']
 
 
 ENGINE = NetSim()
